@@ -49,7 +49,7 @@ InitState(t) ==
          [] tr.kind \in {"cko", "ccko"} -> [out |-> EmptyBag, n |-> 0]
          [] tr.kind \in {"hh", "st"} -> [last |-> EmptyBag, n |-> 0]            \* last[k] = estimate returned by k's most recent add / remove
          [] tr.kind = "bits" -> [bits |-> {}, n |-> 0]                          \* Bitarray: set of positions holding 1
-         [] OTHER -> [S |-> {}, q |-> tr.q, n |-> 0]
+         [] OTHER -> [S |-> {}, q |-> tr.q, n |-> 0, lf |-> 8500]            \* lf: max_load_factor in 1/10000 (the code: 0.85; a resize puts it back)
 
 -----------------------------------------------------------------------------
 InSub(s, k) == PosSet(k) \subseteq s.bits
@@ -72,8 +72,12 @@ EbfFold(s, ks, i) == IF i > Len(ks) THEN s ELSE EbfFold(EbfAdd(s, ks[i][1], ks[i
 
 (* quotient filter: hash <<hi, lo>> *)
 H(k) == <<T.pos[k][1], T.pos[k][2]>>
-QfAdd(s, k) == LET g == IF T.auto /\ 100 * s.n >= 85 * P2(s.q) THEN s.q + 1 ELSE s.q IN
-               IF H(k) \in s.S THEN [s EXCEPT !.q = g] ELSE [S |-> s.S \cup {H(k)}, q |-> g, n |-> s.n + 1]
+(* add: first the growth test  elements / 2^q >= max_load_factor  (floor(10000 n / 2^q) >= lf is the same test on integers), then the insertion;
+   a resize - automatic or requested - re-creates the parameters, which puts max_load_factor back to its default *)
+QfAdd(s, k) == LET grow == T.auto /\ (10000 * s.n) \div P2(s.q) >= s.lf
+                   g == IF grow THEN s.q + 1 ELSE s.q
+                   f == IF grow THEN 8500 ELSE s.lf IN
+               IF H(k) \in s.S THEN [s EXCEPT !.q = g, !.lf = f] ELSE [S |-> s.S \cup {H(k)}, q |-> g, n |-> s.n + 1, lf |-> f]
 QfRem(s, k) == IF H(k) \in s.S THEN [s EXCEPT !.S = @ \ {H(k)}, !.n = @ - 1] ELSE s
 RECURSIVE QfFold(_, _, _, _)
 QfFold(s, ks, i, add) == IF i > Len(ks) THEN s ELSE QfFold(IF add THEN QfAdd(s, ks[i][1]) ELSE QfRem(s, ks[i][1]), ks, i + 1, add)
@@ -139,7 +143,8 @@ Apply(s, e) ==
     [] OTHER ->
          (CASE e.op = "add" -> QfFold(s, ks, 1, TRUE)
             [] e.op = "rem" -> QfFold(s, ks, 1, FALSE)
-            [] e.op = "rsz" -> [s EXCEPT !.q = FinalQ(e.a, s.n)]
+            [] e.op = "rsz" -> [s EXCEPT !.q = FinalQ(e.a, s.n), !.lf = 8500]
+            [] e.op = "lf" -> [s EXCEPT !.lf = e.a]            \* the max_load_factor setter
             [] OTHER -> s)
 
 -----------------------------------------------------------------------------
@@ -227,6 +232,7 @@ Bad(s, e) ==     \* s = model state after the event
   \cup (IF kind \notin {"qf", "cko", "ccko", "hh", "st", "bits"} /\ ~unionEv /\ \E i \in I : pr[i][2] # Answer(su, pr[i][1]) THEN {"DRIFT.answer"} ELSE {})
   \cup (IF kind \notin {"qf", "cko", "ccko", "hh", "st", "bits"} /\ ~unionEv /\ Len(e.full) > 0 /\ ~FullOK(s, e) THEN {"DRIFT.state"} ELSE {})
   \cup (IF kind = "qf" /\ e.aux.q # s.q THEN {"DRIFT.q"} ELSE {})
+  \cup (IF kind = "qf" /\ e.aux.lf # s.lf THEN {"DRIFT.lf"} ELSE {})
 
 Init == tid = 1 /\ l = 1 /\ st = InitState(1) /\ fails = {}
 Step == /\ tid <= NT /\ l <= Len(T.ev)
